@@ -9,6 +9,11 @@ use std::fs::File;
 use std::io::BufWriter;
 use std::process::ExitCode;
 
+/// Every allocation of the process goes through the tracking allocator (monitor of C04's
+/// allocation discipline, see `talloc`)
+#[global_allocator]
+static ALLOC: lasso_verif_harness::talloc::TrackingAlloc = lasso_verif_harness::talloc::TrackingAlloc;
+
 fn main() -> ExitCode {
     let args: Vec<String> = std::env::args().collect();
     if args.len() != 4 {
